@@ -64,8 +64,12 @@ def _run(cmd, cwd, env=None):
 
 
 def _result(status='ok', message='', blamed=None, unattributed=None, symbols=None, defined=None, compiles=0):
+    lines = None
+    if defined and isinstance(defined[0], tuple):
+        lines = {n: ln for ln, n in defined}
+        defined = [n for ln, n in defined]
     return dict(status=status, message=message[-3000:], blamed=blamed or {}, unattributed=unattributed or [],
-                symbols=symbols or {}, defined=defined, compiles=compiles)
+                symbols=symbols or {}, defined=defined, decl_lines=lines, compiles=compiles)
 
 
 def _unhex(s):
@@ -79,20 +83,17 @@ def _ident_ok(name):
     return re.match(r'^[A-Za-z_][A-Za-z0-9_]*$', name) is not None
 
 
-def _line_of_symbol(text, names):
+def _line_of_symbol(decls):
     """line number (1-based) -> symbol declared on that line of the exported text"""
-    out = {}
-    for i, line in enumerate(text.split('\n'), 1):
-        for n in names:
-            if re.search(r'(?<![\w.])' + re.escape(n) + r'(?![\w.])', line.split('=')[0]):
-                out[i] = n
-                break
-    return out
+    return {ln: n for ln, n in decls}
 
 
 def _attribute(errors, cfgfile, cfglines, prgfile, prglines):
     """errors: [(file, line, msg)] -> (blamed {sym: [msg]}, unattributed [msg])"""
     blamed, un = {}, []
+    if any(os.path.basename(f) == cfgfile for f, ln, msg in errors):
+        # errors in the reader program are then consequences (symbol not declared ...): judged in the next round
+        errors = [e for e in errors if os.path.basename(e[0]) == cfgfile]
     for f, ln, msg in errors:
         f = os.path.basename(f)
         sym = None
@@ -129,7 +130,7 @@ def _c_cat(tname):
 def scan_c_defined(text):
     """names the header defines, by its rigid line format (guard excluded)"""
     names, guard = [], None
-    for line in text.split('\n'):
+    for ln, line in enumerate(text.split('\n'), 1):
         m = re.match(r'^#ifndef\s+(\S+)', line)
         if m and guard is None:
             guard = m.group(1)
@@ -137,11 +138,11 @@ def scan_c_defined(text):
         m = re.match(r'^#define\s+([^\s(]+)', line)
         if m:
             if m.group(1) != guard:
-                names.append(m.group(1))
+                names.append((ln, m.group(1)))
             continue
-        m = re.match(r'^(?:static\s+)?(?:const|constexpr)\s+.*?([A-Za-z_][\w.]*)\s*(?:\[[^=]*\])?\s*=', line)
+        m = re.match(r'^(?:static\s+)?(?:const|constexpr)\s+[^=]*?([A-Za-z_][\w.]*)\s*(?:\[[^=]*\])?\s*=', line)
         if m:
-            names.append(m.group(1))
+            names.append((ln, m.group(1)))
     return names
 
 
@@ -250,7 +251,7 @@ def read_c(text, specs, cpp=False):
         defined = scan_c_defined(text)
         if rc != 0:
             errors = _gcc_errors(err)
-            blamed, un = _attribute(errors, 'config.h', _line_of_symbol(text, [s['name'] for s in specs]), src, owner)
+            blamed, un = _attribute(errors, 'config.h', _line_of_symbol(defined), src, owner)
             if not errors:
                 un.append(err[-600:])
             return _result('compile-error', err, blamed, un, defined=defined, compiles=1)
@@ -335,10 +336,10 @@ def _fortran_types_module():
 
 def scan_fortran_defined(text):
     names = []
-    for line in text.split('\n'):
-        m = re.match(r'^\s*[a-zA-Z].*?::\s*([A-Za-z_][\w.]*)\s*=', line)
+    for ln, line in enumerate(text.split('\n'), 1):
+        m = re.match(r'^\s*[a-zA-Z][^:"\']*::\s*([A-Za-z_][\w.]*)\s*=', line)
         if m:
-            names.append(m.group(1))
+            names.append((ln, m.group(1)))
     return names
 
 
@@ -409,7 +410,7 @@ def read_fortran(text, specs, module='ConfigurationModule'):
             f.write(text + '\n')
         defined = scan_fortran_defined(text)
         fc = [_which('gfortran'), '-ffree-line-length-none', '-O0']
-        cfglines = _line_of_symbol(text, [s['name'] for s in specs])
+        cfglines = _line_of_symbol(defined)
         rc, out, err = _run(fc + ['-c', 'config.f90'], tmp)
         if rc != 0:
             errors = _gfortran_errors(err)
@@ -499,10 +500,10 @@ fn main() {
 
 def scan_rust_defined(text):
     names = []
-    for line in text.split('\n'):
+    for ln, line in enumerate(text.split('\n'), 1):
         m = re.match(r'^\s*pub\s+(?:const|static)\s+([A-Za-z_][\w.]*)\s*:', line)
         if m:
-            names.append(m.group(1))
+            names.append((ln, m.group(1)))
     return names
 
 
@@ -554,7 +555,7 @@ def read_rust(text, specs):
         if rc != 0:
             errors = _rustc_errors(err)
             errors = [e for e in errors if not e[2].startswith('aborting due to')]
-            blamed, un = _attribute(errors, 'config.rs', _line_of_symbol(text, [s['name'] for s in specs]), 'main.rs', owner)
+            blamed, un = _attribute(errors, 'config.rs', _line_of_symbol(defined), 'main.rs', owner)
             if not errors:
                 un.append(err[-600:])
             return _result('compile-error', err, blamed, un, defined=defined, compiles=1)
@@ -837,6 +838,12 @@ def read_dip(text, specs=None):
             rec['values'] = [None]
         symbols[node.name] = rec
     return _result('ok', '', symbols=symbols, defined=[n.name for n in env.nodes], compiles=1)
+
+
+def scan_defined(backend, text):
+    """names declared by a C / C++ / Fortran / Rust file (line scan of the rigid one-declaration-per-line layout)"""
+    f = dict(c=scan_c_defined, cpp=scan_c_defined, fortran=scan_fortran_defined, rust=scan_rust_defined)[backend]
+    return [n for ln, n in f(text)]
 
 
 READERS = dict(c=read_c, cpp=read_cpp, fortran=read_fortran, rust=read_rust, bash=read_bash, json=read_json,
